@@ -485,7 +485,8 @@ Record wfG (L : list node) (rules : list rule) (src : list (name * stat)) : Prop
   wg_noout : forall nm r files sels incs fl,
       find_rule nm rules = Some r -> r_kind r = KFileSet files sels incs ->
       expand_files (map fst src) files sels = Some fl -> no_out_files L fl;
-  wg_noshadow : forall n, In n L -> ntype n <> TSrc -> lookup (nname n) src = None
+  wg_noshadow : forall n, In n L -> ntype n <> TSrc -> lookup (nname n) src = None;
+  wg_src : forall n, In n L -> ntype n = TSrc -> exists s, lookup (nname n) src = Some s
 }.
 
 Section SpecMono2.
@@ -1427,4 +1428,313 @@ Proof.
     specialize (Hs1 f Hf). rewrite Hn, Hty in Hs1. discriminate.
   - intros n HnL Hty. specialize (Hs2 n HnL).
     destruct (ntype n); [congruence| |]; destruct (lookup (nname n) (w_src w)); congruence.
+  - intros n HnL Hty.
+    destruct (topo_In _ _ _ Htopo n HnL) as [Hf|(_ & Hk & _)].
+    + exfalso. apply find_node_Some in Hf. destruct Hf as [Hn _].
+      exact (read_roots_nonsrc _ _ _ Hr n Hn Hty).
+    + unfold src_kind in Hk. destruct (lookup (nname n) (w_src w)) as [s|]; [eauto|discriminate].
+Qed.
+
+(** * The invariant over histories (cache validity) *)
+
+Definition winv (w : world) : Prop :=
+  cache_inv (w_out w) (w_cache w) /\ fresh (w_out w) (w_cache w) (w_clock w).
+
+(** every build of the history stays inside the model's scope *)
+Definition build_in_scope (ts : list name) (w : world) : Prop :=
+  match load_world w ts with
+  | LOk L => scopeb L (w_rules w) (w_src w) = true
+  | _ => True
+  end.
+
+Fixpoint hist_in_scope (h : list op) (w : world) : Prop :=
+  match h with
+  | [] => True
+  | o :: r => match o with OBuild ts => build_in_scope ts w | _ => True end /\
+              hist_in_scope r (step w o)
+  end.
+
+Definition st0_of (w : world) : bstate := mkB (w_out w) (w_cache w) (w_clock w) [] [].
+
+Lemma binv_st0 L rules src w : winv w -> binv L rules src (st0_of w).
+Proof.
+  intros [Hc Hf]. constructor; simpl; auto.
+  - exists 0. intros nm d [].
+  - exists 0. intros nm d n r fs ss is' [].
+Qed.
+
+(** [build] as a fold of [visit] over the visiting order *)
+Lemma build_unfold ts w L :
+  load_world w ts = LOk L -> wf_loaded L ->
+  exists new,
+    post_targets L ts [] = Some new /\
+    build ts w =
+    match LoadProofs.run bstate (bstate * failure) (visit L (w_rules w) (w_src w)) new ([], st0_of w) with
+    | inl (_, st) => (with_state w st, b_exec st, BOk)
+    | inr (st, e) => (with_state w st, b_exec st, BFail e)
+    end.
+Proof.
+  intros Hl Hwf. destruct (post_targets_total L Hwf ts []) as [new Hn].
+  exists new. split; [assumption|]. unfold build. rewrite Hl.
+  fold (st0_of w).
+  rewrite (dfs_targets_post L bstate (bstate * failure) _ _ ts [] (st0_of w) new Hn).
+  destruct (LoadProofs.run bstate (bstate * failure) (visit L (w_rules w) (w_src w)) new ([], st0_of w))
+    as [[b st]|[st e]]; reflexivity.
+Qed.
+
+Theorem build_inv ts w : winv w -> build_in_scope ts w -> winv (fst (fst (build ts w))).
+Proof.
+  intros Hw Hs. unfold build_in_scope in Hs.
+  destruct (load_world w ts) as [|es|L] eqn:Hl.
+  - unfold build. now rewrite Hl.
+  - unfold build. now rewrite Hl.
+  - pose proof (load_world_wfG w ts L Hl Hs) as HG.
+    destruct (build_unfold ts w L Hl (wg_wf _ _ _ HG)) as [new [Hn ->]].
+    destruct (post_targets_spec L (wg_wf _ _ _ HG) ts [] new Hn) as [Hok _].
+    pose proof (run_inv L (w_rules w) (w_src w) HG new [] (st0_of w) (binv_st0 _ _ _ w Hw)) as Hr.
+    assert (Hnodes : forall x, In x new -> find_node (nname x) L = Some x).
+    { intros x Hx. destruct (po_nodes _ _ _ _ Hok x Hx) as [H _]. exact H. }
+    specialize (Hr Hnodes).
+    destruct (LoadProofs.run bstate (bstate * failure) (visit L (w_rules w) (w_src w)) new ([], st0_of w))
+      as [[b st]|[st e]]; simpl.
+    + destruct Hr as [_ _ Hc Hf]. split; assumption.
+    + exact Hr.
+Qed.
+
+Theorem step_inv w o :
+  winv w -> match o with OBuild ts => build_in_scope ts w | _ => True end -> winv (step w o).
+Proof.
+  intros [Hc Hf] Hs. destruct o as [nm s|rs|o c|ts]; simpl.
+  - split; assumption.
+  - split; assumption.
+  - destruct c as [c|]; split.
+    + now apply cache_inv_write.
+    + now apply fresh_write.
+    + now apply cache_inv_delete.
+    + now apply fresh_delete.
+  - apply build_inv; [split; assumption|assumption].
+Qed.
+
+Theorem run_hist_inv h : forall w, winv w -> hist_in_scope h w -> winv (run h w).
+Proof.
+  induction h as [|o h IH]; intros w Hw Hs; simpl; [assumption|].
+  destruct Hs as [Ho Hr]. apply IH; [|assumption]. now apply step_inv.
+Qed.
+
+Lemma winv_empty rs src : winv (empty_world rs src).
+Proof.
+  split.
+  - intros d b H. discriminate.
+  - split; [intros o c s H; discriminate|intros d b o s H; discriminate].
+Qed.
+
+(** * A build succeeds when the configuration says every file set can be computed *)
+
+Lemma collect_total {A} (g : name -> option A) deps :
+  (forall d, In d deps -> exists x, g d = Some x) -> exists dd, collect g deps = Some dd.
+Proof.
+  induction deps as [|d deps IH]; intros H; simpl; [eauto|].
+  destruct IH as [l ->]; [intros k Hk; apply H; now right|].
+  destruct (H d (or_introl eq_refl)) as [x ->]. eauto.
+Qed.
+
+Section Succeeds.
+  Variables (L : list node) (rules : list rule) (src : list (name * stat)).
+  Hypothesis HG : wfG L rules src.
+
+  Let vis := visit L rules src.
+
+  (** every file-set rule among these nodes has a computable content *)
+  Definition spec_ok (xs : list node) : Prop :=
+    forall x r fs ss is', In x xs -> ntype x = TRule -> find_rule (nname x) rules = Some r ->
+      r_kind r = KFileSet fs ss is' -> exists g l, scont L rules src g (nname x) = Some (inl l).
+
+  Lemma visit_memo x st st' :
+    vis x st = inl st' -> exists d, b_memo st' = (nname x, d) :: b_memo st.
+  Proof.
+    unfold vis, visit.
+    destruct (dep_digests (b_memo st) (ndeps x)) as [dd|]; [|discriminate].
+    destruct (ntype x).
+    - destruct (lookup (nname x) src); [|discriminate]. intros [= <-]. simpl. eauto.
+    - destruct (find_rule (nname x) rules) as [r|]; [|discriminate]. cbv zeta.
+      destruct (match cache_get _ (b_cache st) with Some b => same_built (b_out st) b | None => false end).
+      + intros [= <-]. simpl. eauto.
+      + destruct (exec_rule L rules src r x _) as [[out' clock']|e]; [|discriminate].
+        destruct (new_built out' (node_outs rules x)); [|discriminate].
+        intros [= <-]. simpl. eauto.
+    - intros [= <-]. simpl. eauto.
+  Qed.
+
+  Lemma visit_succeeds x st :
+    binv L rules src st -> find_node (nname x) L = Some x ->
+    (forall k, In k (ndeps x) -> exists d, In (k, d) (b_memo st)) ->
+    spec_ok [x] ->
+    exists st', vis x st = inl st'.
+  Proof.
+    intros [Hm Ho Hc Hf] Hx Hdeps Hspec. unfold vis, visit.
+    assert (Hin : In x L) by (apply find_node_Some in Hx; tauto).
+    destruct (collect_total (fun d => lookup d (b_memo st)) (ndeps x)) as [dd Hdd].
+    { intros k Hk. destruct (Hdeps k Hk) as [d Hd]. apply In_fst_lookup.
+      apply in_map_iff. exists (k, d). auto. }
+    rewrite dep_digests_collect, Hdd.
+    destruct (ntype x) eqn:Hty.
+    - destruct (wg_src _ _ _ HG x Hin Hty) as [s ->]. eauto.
+    - destruct (wg_rule _ _ _ HG x Hin Hty) as (r & Hr & Hdeps'). rewrite Hr. cbv zeta.
+      destruct (match cache_get _ (b_cache st) with Some b => same_built (b_out st) b | None => false end);
+        [eauto|].
+      unfold exec_rule, log. cbn [b_out b_cache b_clock b_memo b_exec].
+      pose proof (find_rule_name _ _ _ Hr) as Hrn.
+      destruct (r_kind r) as [files sels incs|ds] eqn:Hk.
+      + destruct Hdeps' as (fl & Hex & Hnd). rewrite Hex.
+        destruct (Hspec x r files sels incs (or_introl eq_refl) Hty Hr Hk) as (g & l & Hg).
+        assert (Hcont : fileset_content L rules src (b_out st) fl incs = inl l).
+        { destruct g as [|g']; [discriminate|]. simpl in Hg. rewrite Hr, Hk, Hex in Hg.
+          injection Hg as Hg. rewrite <- Hg.
+          apply fileset_content_ext; [eapply wg_noout; eauto|].
+          intros i Hi. unfold content_at.
+          destruct (fileset_content_ok _ _ _ _ _ _ _ Hg i Hi)
+            as (n & ri & fs' & ss' & is' & li & s & Hn & Hti & Hri & Hki & Hl).
+          rewrite Hl. rewrite lookup_spec_outs in Hl.
+          destruct (mem i incs); [|discriminate].
+          destruct (scont L rules src g' i) as [[li'|]|] eqn:Hsi; try discriminate.
+          injection Hl as -> _.
+          destruct (Hdeps i) as [di Hdi]; [rewrite Hnd; apply in_app_iff; now right|].
+          destruct Ho as [F HF].
+          destruct (HF i di n ri fs' ss' is' Hdi Hn Hti Hri Hki) as (l2 & s2 & Hs2 & Hl2).
+          rewrite Hl2. now rewrite (scont_unique L rules src HG _ _ _ _ _ Hs2 Hsi). }
+        rewrite Hcont, Hrn, (node_outs_fs rules x r files sels incs Hr Hk).
+        unfold new_built. cbn [fold_right]. rewrite lookup_set_same. eauto.
+      + rewrite (node_outs_bundle rules x r ds Hr Hk). cbn [new_built fold_right]. eauto.
+    - eauto.
+  Qed.
+
+  (** Running the rest of the visiting order from a state in which the
+      nodes of [done] are in the memo. *)
+  Lemma run_complete ts : forall rest done b st,
+    post_ok L ts [] (done ++ rest) ->
+    binv L rules src st ->
+    (forall y, In y done -> exists d, In (nname y, d) (b_memo st)) ->
+    spec_ok rest ->
+    exists b' st', LoadProofs.run bstate (bstate * failure) vis rest (b, st) = inl (b', st') /\
+      binv L rules src st' /\
+      (forall y, In y (done ++ rest) -> exists d, In (nname y, d) (b_memo st')).
+  Proof.
+    induction rest as [|x rest IH]; intros done b st Hok Hinv Hdone Hspec.
+    - exists b, st. rewrite app_nil_r. simpl. auto.
+    - simpl.
+      destruct (po_nodes _ _ _ _ Hok x) as (Hx & _); [apply in_app_iff; right; now left|].
+      assert (Hdeps : forall k, In k (ndeps x) -> exists d, In (k, d) (b_memo st)).
+      { intros k Hk. destruct (po_deps _ _ _ _ Hok done x rest eq_refl k Hk) as [[]|Hkd].
+        apply in_map_iff in Hkd. destruct Hkd as [y [<- Hy]]. auto. }
+      destruct (visit_succeeds x st Hinv Hx Hdeps) as [st' Hv].
+      { intros y r fs ss is' [<-|[]]. apply Hspec. now left. }
+      rewrite Hv. destruct (visit_memo _ _ _ Hv) as [d Hmemo].
+      pose proof (visit_inv L rules src HG x st Hinv Hx) as Hinv'. fold vis in Hinv'.
+      rewrite Hv in Hinv'.
+      destruct (IH (done ++ [x])%list (nname x :: b) st') as (b' & st2 & Hrun & Hinv2 & Hall).
+      + now rewrite <- app_assoc.
+      + assumption.
+      + intros y Hy. apply in_app_iff in Hy. rewrite Hmemo. destruct Hy as [Hy|[<-|[]]].
+        * destruct (Hdone y Hy) as [dy Hdy]. exists dy. now right.
+        * exists d. now left.
+      + intros y r fs ss is' Hy. apply Hspec. now right.
+      + exists b', st2. split; [exact Hrun|]. split; [assumption|].
+        now rewrite <- app_assoc in Hall.
+  Qed.
+End Succeeds.
+
+(** * An incremental build equals a clean build *)
+
+Lemma run_memo L rules src new : forall b st b' st',
+  LoadProofs.run bstate (bstate * failure) (visit L rules src) new (b, st) = inl (b', st') ->
+  (forall nm d, In (nm, d) (b_memo st) -> In (nm, d) (b_memo st')) /\
+  (forall x, In x new -> exists d, In (nname x, d) (b_memo st')).
+Proof.
+  induction new as [|x new IH]; intros b st b' st' H; simpl in H.
+  - injection H as <- <-. split; [auto|intros x []].
+  - destruct (visit L rules src x st) as [st1|[st1 e]] eqn:Hv; [|discriminate].
+    destruct (visit_memo L rules src x st st1 Hv) as [d Hm].
+    destruct (IH _ _ _ _ H) as [I1 I2]. split.
+    + intros nm d' Hin. apply I1. rewrite Hm. now right.
+    + intros y [<-|Hy]; [|auto]. exists d. apply I1. rewrite Hm. now left.
+Qed.
+
+(** the rules the build walk reaches from the targets *)
+Definition reach_rule (L : list node) (ts : list name) (r : name) : Prop :=
+  exists t n, In t ts /\ clos_refl_trans name (edgeL L) t r /\
+              find_node r L = Some n /\ ntype n = TRule.
+
+Lemma reach_rule_visited L ts new r :
+  wf_loaded L -> (forall t, In t ts -> has_node t L = true) ->
+  (forall n, In n L -> ntype n = TSrc -> ndeps n = []) ->
+  post_targets L ts [] = Some new ->
+  (reach_rule L ts r <-> exists x, In x new /\ nname x = r /\ ntype x = TRule).
+Proof.
+  intros Hwf Hts Hsrc Hn.
+  destruct (exec_sound L Hwf ts Hts Hsrc) as (ex & Hex & _ & Hiff & _).
+  destruct (exec_order_post L Hwf ts) as (new' & Hn' & Hex').
+  rewrite Hn in Hn'. injection Hn' as <-. rewrite Hex in Hex'. injection Hex' as ->.
+  unfold reach_rule. rewrite <- Hiff. unfold names. rewrite in_map_iff. split.
+  - intros [x [Hx Hin]]. apply filter_In in Hin. destruct Hin as [Hin Hr].
+    exists x. repeat split; auto. unfold is_rule in Hr. destruct (ntype x); congruence.
+  - intros [x (Hin & Hx & Hty)]. exists x. split; [assumption|]. apply filter_In.
+    split; [assumption|]. unfold is_rule. now rewrite Hty.
+Qed.
+
+Theorem incremental_eq_clean ts w w1 e1 L :
+  winv w -> build_in_scope ts w -> load_world w ts = LOk L ->
+  build ts w = (w1, e1, BOk) ->
+  exists w2 e2, build ts (clean w) = (w2, e2, BOk) /\
+    forall r rl fs ss is',
+      reach_rule L ts r -> find_rule r (w_rules w) = Some rl -> r_kind rl = KFileSet fs ss is' ->
+      exists l, content_at (w_out w1) (fileset_out r) = Some (CList l) /\
+                content_at (w_out w2) (fileset_out r) = Some (CList l).
+Proof.
+  intros Hw Hs Hl Hb. unfold build_in_scope in Hs. rewrite Hl in Hs.
+  pose proof (load_world_wfG w ts L Hl Hs) as HG.
+  pose proof (wg_wf _ _ _ HG) as Hwf.
+  destruct (load_world_inv w ts L Hl) as (stl & Hrr & Hre & Htopo & Hts).
+  assert (Hsrcnd : forall n, In n L -> ntype n = TSrc -> ndeps n = []).
+  { intros n Hn Hty. eapply loaded_src_nodeps; eauto. eapply read_roots_nonsrc; eauto. }
+  destruct (build_unfold ts w L Hl Hwf) as [new [Hn Hbu]].
+  destruct (post_targets_spec L Hwf ts [] new Hn) as [Hok _].
+  assert (Hnodes : forall x, In x new -> find_node (nname x) L = Some x).
+  { intros x Hx. destruct (po_nodes _ _ _ _ Hok x Hx) as [H _]. exact H. }
+  (* the incremental run *)
+  rewrite Hb in Hbu.
+  pose proof (run_inv L (w_rules w) (w_src w) HG new [] (st0_of w) (binv_st0 _ _ _ w Hw) Hnodes) as Hinv1.
+  destruct (LoadProofs.run bstate (bstate * failure) (visit L (w_rules w) (w_src w)) new ([], st0_of w))
+    as [[b1 st1]|[st1 e]] eqn:Hrun1; [|discriminate].
+  injection Hbu as -> _.
+  destruct (run_memo _ _ _ _ _ _ _ _ Hrun1) as [_ Hmemo1].
+  destruct Hinv1 as [_ Ho1 _ _].
+  (* hence every visited file set has a computable content *)
+  assert (Hspec : spec_ok L (w_rules w) (w_src w) new).
+  { intros x r fs ss is' Hx Hty Hr Hk. destruct (Hmemo1 x Hx) as [d Hd].
+    destruct Ho1 as [F HF].
+    destruct (HF (nname x) d x r fs ss is' Hd (Hnodes x Hx) Hty Hr Hk) as (l & s & Hsc & _). eauto. }
+  (* the clean run *)
+  assert (Hl2 : load_world (clean w) ts = LOk L) by exact Hl.
+  destruct (build_unfold ts (clean w) L Hl2 Hwf) as [new2 [Hn2 Hbu2]].
+  rewrite Hn in Hn2. injection Hn2 as <-.
+  assert (Hw2 : winv (clean w)).
+  { split; [intros d b H; discriminate|].
+    split; [intros o c s H; discriminate|intros d b o s H; discriminate]. }
+  destruct (run_complete L (w_rules w) (w_src w) HG ts new [] [] (st0_of (clean w)))
+    as (b2 & st2 & Hrun2 & Hinv2 & Hmemo2); auto.
+  { exact (binv_st0 L (w_rules w) (w_src w) (clean w) Hw2). }
+  { intros y []. }
+  change (w_rules (clean w)) with (w_rules w) in Hbu2.
+  change (w_src (clean w)) with (w_src w) in Hbu2.
+  rewrite Hrun2 in Hbu2.
+  exists (with_state (clean w) st2), (b_exec st2). split; [exact Hbu2|].
+  intros r rl fs ss is' Hreach Hrl Hk.
+  apply (reach_rule_visited L ts new r Hwf Hts Hsrcnd Hn) in Hreach.
+  destruct Hreach as (x & Hx & Hnm & Hty). subst r.
+  destruct (Hmemo1 x Hx) as [d1 Hd1]. destruct (Hmemo2 x Hx) as [d2 Hd2].
+  destruct Ho1 as [F1 HF1]. destruct Hinv2 as [_ [F2 HF2] _ _].
+  destruct (HF1 (nname x) d1 x rl fs ss is' Hd1 (Hnodes x Hx) Hty Hrl Hk) as (l1 & s1 & Hs1 & Hl1).
+  destruct (HF2 (nname x) d2 x rl fs ss is' Hd2 (Hnodes x Hx) Hty Hrl Hk) as (l2 & s2 & Hs2 & Hl2').
+  pose proof (scont_unique L (w_rules w) (w_src w) HG _ _ _ _ _ Hs1 Hs2) as <-.
+  exists l1. unfold content_at. simpl. now rewrite Hl1, Hl2'.
 Qed.
